@@ -21,7 +21,7 @@ def task_cx(tier, only=None):
     from chempy.util import parsing
     from chempy.printing.string import StrPrinter
 
-    return cxrun.run_harness("cx/C13_render.py", timeout=280 if tier == "quick" else 1500, only=only,
+    return cxrun.run_harness("cx/C13_render.py", timeout=280 if tier == "quick" else 2400, only=only,
                              functions=[env.describe(parsing._formula_to_format), env.describe(parsing._formula_to_parts), env.describe(parsing._get_charge),
                                         env.describe(parsing._get_leading_integer), env.describe(parsing.formula_to_latex),
                                         env.describe(parsing.formula_to_unicode), env.describe(parsing.formula_to_html),
